@@ -482,7 +482,13 @@ def check_effect_table(ctx, rule, func, what, construct=None, **kw):
     from . import summ, equiv
     kw.setdefault("loops", "body")
     kw.setdefault("alpha", "auto")
-    return summ.check_baseline(ctx, rule, func, what, construct=construct, outcome=equiv.loose_outcome, **kw)
+    saved = set(summ.INT_NAMES)
+    summ.INT_NAMES.update(INT_FIELDS.get(func.qualname.split("dateutil.", 1)[-1], ()))
+    try:
+        return summ.check_baseline(ctx, rule, func, what, construct=construct, outcome=equiv.loose_outcome, **kw)
+    finally:
+        summ.INT_NAMES.clear()
+        summ.INT_NAMES.update(saved)
 
 
 def presence_tests(fnode):
@@ -600,6 +606,13 @@ EFFECT_TABLES = {
     "C18": [T + "tzutc.__eq__", T + "tzoffset.__eq__", T + "tzlocal.__eq__", T + "tzrange.__eq__", T + "tzfile.__eq__", T + "tzutc.__ne__", T + "tzoffset.__ne__", T + "tzlocal.__ne__",
             T + "tzfile.__ne__", "tz._common.tzrangebase.__ne__"],
     "C20": ["parser.isoparser.isoparser._calculate_weekdate", "parser.isoparser._to_int", "parser.isoparser._takes_ascii.func"],
+}
+
+
+# integer-valued names of tabled functions (every caller passes int(<digits>)): strict and non-strict bounds on them are
+# interchangeable with the bound moved by one (`0 < week` is `1 <= week`)
+INT_FIELDS = {
+    "parser.isoparser.isoparser._calculate_weekdate": ("week", "day", "year"),
 }
 
 
